@@ -280,7 +280,7 @@ func runConcFam(c *drv.Ctx) error {
 	}
 	n := c.Count(150, 3000)
 	for i := 0; i < n; i++ {
-		if err := runFamCase(w, famCase{Seed: c.R.U64(), Family: []string{"ignore", "bucket", "cancel", "batch"}[i%4]}, "random"); err != nil {
+		if err := runFamCase(w, famCase{Seed: c.R.U64(), Family: []string{"ignore", "bucket", "cancel", "batch", "rcancel"}[i%5]}, "random"); err != nil {
 			return err
 		}
 	}
